@@ -7,4 +7,4 @@ if [ -n "$(git status --porcelain -- src Cargo.toml)" ]; then echo "/repo is not
 git apply /verif/seeded/$ID/patch.diff || exit 2
 ( cd /verif && timeout 3600 bin/check $CHK quick "$@" > /tmp/try-$ID-$CHK.log 2>&1; echo "exit=$?" >> /tmp/try-$ID-$CHK.log )
 git checkout -- src Cargo.toml
-grep -E "^VIOLATION|^exit=" /tmp/try-$ID-$CHK.log | head -5
+grep -E "^VIOLATION|^exit=" /tmp/try-$ID-$CHK.log | sed -n "1,3p;\$p"
